@@ -47,6 +47,10 @@
 #![forbid(non_ascii_idents, unsafe_code)]
 #![warn(clippy::nonstandard_macro_braces)]
 
+// `FromStr` expansion for enums calls `str::to_lowercase()`, which lives in `alloc`.
+#[cfg(feature = "from_str")]
+extern crate alloc;
+
 // For macro expansion internals only.
 // Ensures better hygiene in case a local crate `core` is present in workspace of the user code,
 // or some other crate is renamed as `core`.
